@@ -21,7 +21,7 @@ pub fn property() -> Property {
     Property {
         id: "C09",
         level: "fault_enumeration",
-        rule: "scenario = role (client/server) x streams (0-3) x pending opens x blocked readers x 0-3 concurrent writer tasks (queued on a small-capacity transport) x life point (fresh session with only the settings buffered .. mid-transfer); cause = peer EOF, read error (ConnectionReset / UnexpectedEof / Other), write error at byte k, flush error, Alert frame (with/without text), liveness timeout, owner close(), each optionally with a transport whose shutdown never completes; position = byte offset in the affected direction, enumerated from the recorded fault-free run of the same scenario (fixed cases walk every offset of a canonical scenario for every cause; random cases sample scenario x cause x position x H1 schedule). Oracles under a one-hour virtual watchdog: closed flag, shutdown seen on the transport, blocked readers return, pending opens resolve with an error, later opens/writes fail, in-flight calls return, the session's tasks end. Non-trivial = >= 1 blocked reader or pending open or queued writer at the fault. Distinct = distinct serialized case. Read faults also come as TimedOut / Interrupted / WouldBlock errors, write and flush faults as broken pipe, connection reset, timed out, interrupted, would block or other.",
+        rule: "scenario = role (client/server) x streams (0-3) x pending opens x blocked readers x 0-3 concurrent writer tasks (queued on a small-capacity transport) x life point (fresh session with only the settings buffered .. mid-transfer); cause = peer EOF, read error (ConnectionReset / UnexpectedEof / Other), write error at byte k, flush error, Alert frame (with/without text), liveness timeout, owner close(), each optionally with a transport whose shutdown never completes; position = byte offset in the affected direction, enumerated from the recorded fault-free run of the same scenario (fixed cases walk every offset of a canonical scenario for every cause; random cases sample scenario x cause x position x H1 schedule). Oracles under a one-hour virtual watchdog: closed flag, shutdown seen on the transport, blocked readers return, pending opens resolve with an error, later opens/writes fail, in-flight calls return, the session's tasks end. Non-trivial = >= 1 blocked reader or pending open or queued writer at the fault. Distinct = distinct serialized case. Read faults also come as TimedOut / Interrupted / WouldBlock errors, write and flush faults as broken pipe, connection reset, timed out, interrupted, would block or other. For the liveness cause half of the generated cases, and fixed cases with 0 / 2 / 3 writers over 32- and 256-byte pipes, make the silent peer stop reading as well: data writes and the keep-alive request back up in the transport, and the session must still become closed, shut its transport down and release every reader, opener and writer.",
         assumptions: vec![
             "virtual watchdog: not completed after one virtual hour = blocks forever (documented bounds: 1 s shutdown, 30 s open)",
             "scripted peer speaks through the reference codec; harness pipe models EOF/reset/broken pipe/hanging shutdown",
@@ -63,6 +63,10 @@ pub struct FaultCase {
     /// 3 interrupted, 4 would block, 5 other
     #[serde(default)]
     pub write_kind: u8,
+    /// cause Liveness only: the silent peer stops reading as well, so that the session's writes - the
+    /// keep-alive request among them - back up in the transport instead of being taken
+    #[serde(default)]
+    pub peer_stops_reading: bool,
 }
 
 pub struct FaultFam;
@@ -296,6 +300,9 @@ async fn scenario(case: &FaultCase, fault_at: Option<usize>) -> Result<(Totals, 
     }
     let alert_at = if let Cause::Alert(_) = &case.cause { Some(idx(case.pos, script.len() + 1)) } else { None };
     let silent = case.cause == Cause::Liveness && fault_at.is_some();
+    if silent && case.peer_stops_reading {
+        out_h.freeze_reader(true);
+    }
     {
         for (i, f) in script.iter().enumerate() {
             if alert_at == Some(i) && fault_at.is_some() {
@@ -416,7 +423,7 @@ async fn scenario(case: &FaultCase, fault_at: Option<usize>) -> Result<(Totals, 
     let refs = Arc::strong_count(&sess);
     // Only judged when the peer could learn about the close and closed its side in response:
     // the receive task legitimately sits in a transport read until the peer's EOF arrives.
-    if refs > harness_refs && !case.shutdown_hangs {
+    if refs > harness_refs && !case.shutdown_hangs && !(silent && case.peer_stops_reading) {
         return Err(Fail::new(
             "C09.tasks",
             format!("C09.tasks:{}", cause_tag(&case.cause)),
@@ -494,6 +501,7 @@ pub fn run_fault_case(case: &FaultCase) -> CaseResult {
     out.class_if(!case.client_role, "server-role");
     out.class_if(case.fresh, "fresh-session");
     out.class_if(case.writers > 0 && case.out_cap <= 256, "queued-writers");
+    out.class_if(case.cause == Cause::Liveness && case.peer_stops_reading, "silent-peer-that-does-not-read-either");
     out.class_if(case.n_pending > 0 && case.client_role && !case.fresh, "pending-opens");
     let inside = matches!(case.cause, Cause::PeerEof | Cause::ReadErr(_)) && !t2.in_boundaries.contains(&at);
     out.class_if(inside, "inside-frame");
@@ -530,11 +538,12 @@ impl Family for FaultFam {
             any::<u16>(),
             proptest::bool::weighted(0.25),
             prop_oneof![2 => Just(Vec::new()), 1 => proptest::collection::vec(0u8..3, 0..40)],
-            (proptest::bool::weighted(0.1), prop_oneof![3 => Just(0u8), 1 => 1u8..6]),
+            (proptest::bool::weighted(0.1), prop_oneof![3 => Just(0u8), 1 => 1u8..6], any::<bool>()),
         )
-            .prop_map(|((client_role, n_streams, n_pending, blocked_readers, writers), (wchunk, out_cap), cause, pos, shutdown_hangs, yields, (fresh, write_kind))| {
+            .prop_map(|((client_role, n_streams, n_pending, blocked_readers, writers), (wchunk, out_cap), cause, pos, shutdown_hangs, yields, (fresh, write_kind, peer_stops_reading))| {
                 let cause = if cause == Cause::Liveness && !client_role { Cause::PeerEof } else { cause };
-                FaultCase { client_role, n_streams, n_pending, blocked_readers, writers, wchunk, out_cap, cause, pos, shutdown_hangs, yields, fresh, write_kind }
+                let peer_stops_reading = peer_stops_reading && cause == Cause::Liveness;
+                FaultCase { client_role, n_streams, n_pending, blocked_readers, writers, wchunk, out_cap, cause, pos, shutdown_hangs, yields, fresh, write_kind, peer_stops_reading }
             })
             .boxed()
     }
@@ -587,7 +596,14 @@ impl Family for FaultFam {
                             yields: vec![],
                             fresh: false,
                             write_kind: (s % 6) as u8,
+                            peer_stops_reading: false,
                         });
+                        if cause == Cause::Liveness {
+                            // the silent peer does not read either: writers and the keep-alive back up
+                            for (writers, out_cap) in [(2u8, 32usize), (0, 32), (3, 256)] {
+                                v.push(FaultCase { client_role, n_streams: 2, n_pending: 1, blocked_readers: true, writers, wchunk: 300, out_cap, cause: cause.clone(), pos, shutdown_hangs: hangs, yields: vec![], fresh: false, write_kind: 0, peer_stops_reading: true });
+                            }
+                        }
                     }
                 }
             }
